@@ -283,6 +283,11 @@ def finish(mod, tier, seed, src, cases, results, t0, exhaustive=True):
             viol_lines.append((v["fp"], v["msg"], path))
 
     executed = counts["ok"] + counts["violation"] + counts["unconfirmed"]
+    by_dev = {}
+    for case, r in zip(cases, results):
+        if "dev" in case and r["status"] in ("ok", "violation", "unconfirmed"):
+            k = "full-product" if case["dev"] == -1 else str(case["dev"])
+            by_dev[k] = by_dev.get(k, 0) + 1
     # samples: a few actual cases, spread over the enumeration
     ex_idx = [i for i, r in enumerate(results) if r["status"] in ("ok", "violation", "unconfirmed")]
     pick = sorted(set([ex_idx[0], ex_idx[len(ex_idx) // 2], ex_idx[-1]])) if ex_idx else []
@@ -304,6 +309,7 @@ def finish(mod, tier, seed, src, cases, results, t0, exhaustive=True):
         "distinct_outcomes": len(outcomes),
         "outcome_histogram": dict(sorted(outcomes.items(), key=lambda kv: -kv[1])[:12]),
         "bounds": mod.bounds(tier),
+        "executed_cases_by_number_of_deviations": by_dev,
         "known_findings_matched": {fp: n for fp, (_, n) in known_hits.items()},
         "fixed_findings_on_record": [f"{f['commit']} {f['what']}" for f in fixed if f["property"] == pid],
         "src": src,
